@@ -458,14 +458,26 @@ func vLogErr(tag string, err error) {
 func vUTF8(s string) bool { return utf8.ValidString(s) }
 
 // vGarbage: bytes that are not a well-formed CBOR data item (family F2): for
-// the solver an opaque buffer that every CBOR scan rejects; natively 0xff
-// (a lone break code) repeated, or nothing.
+// the solver an opaque buffer that every CBOR scan rejects, whose first bytes the code under test may look
+// at; natively the bytes of the solver's model when the independent parser confirms they are not one
+// well-formed item (e.g. a truncated item a1 01 38), else 0xff (a lone break code) repeated, or nothing.
 func vGarbage(name string, lo, hi int) []byte {
 	b := vBlobN(name, lo, hi)
+	if len(b) > 0 && vParse(b) == nil {
+		return b
+	}
 	for i := range b {
 		b[i] = 0xff
 	}
 	return b
+}
+
+// vScribble: the owner of a byte slice overwrites its contents (whole capacity)
+func vScribble(b []byte) {
+	b = b[:cap(b)]
+	for i := range b {
+		b[i] ^= 0xa5
+	}
 }
 
 // vDeepEqual: reflect.DeepEqual (distinguishes nil from empty slices and maps)
